@@ -3,6 +3,7 @@ From Coq Require Import ZArith QArith List String Bool Lia.
 Require Import WV.model.C14Page.
 Import ListNotations.
 Open Scope string_scope.
+Open Scope list_scope.
 Open Scope Z_scope.
 
 (* ----------------------------------------------------------------------------------------- :nth(an+b) *)
@@ -186,7 +187,9 @@ Proof.
       + rewrite IH. simpl. split; intros [H1 H2]; (split; [destruct H1 as [H1|H1]|destruct H2 as [H2|H2]]);
           try (now left); try (right; right; assumption); try (destruct H1 as [H1|H1]; [discriminate|now right]);
           try (destruct H2 as [H2|H2]; [discriminate|now right]). }
-  rewrite G. simpl. split; intros [[H1|H1] [H2|H2]]; try discriminate; split; auto.
+  rewrite G. simpl. split.
+  - intros [[H1|H1] [H2|H2]]; try discriminate. now split.
+  - intros [H1 H2]. split; now right.
 Qed.
 
 Example specificity_example :
@@ -254,8 +257,8 @@ Section Cascade.
     cascade leb l = Some d -> last_max l d -> cascade_from leb (Some d) l = Some d.
   Proof.
     intros _ [pre [post [Hs [Hp Hq]]]]. subst l. unfold cascade_from.
-    assert (Hpre : forall p acc, (forall e, In e p -> leb (snd e) (snd d) = true) ->
-                     (exists a, acc = Some a /\ leb (snd a) (snd d) = true) ->
+    assert (Hpre : forall (p : list (V * W)) (acc : option (V * W)), (forall e, In e p -> leb (snd e) (snd d) = true) ->
+                     (exists a : V * W, acc = Some a /\ leb (snd a) (snd d) = true) ->
                      exists a, fold_left (cascade_step leb) p acc = Some a /\ leb (snd a) (snd d) = true).
     { induction p as [|e p IH]; intros acc Hle Ha; simpl; [exact Ha|]. apply IH.
       - intros x Hx. apply Hle. now right.
@@ -271,41 +274,32 @@ Section Cascade.
 End Cascade.
 
 (* the order on weights is the lexicographic order on (precedence, (f, g, h)): total and transitive *)
+Lemma spec_leb_iff a1 b1 c1 a2 b2 c2 :
+  spec_leb (a1, b1, c1) (a2, b2, c2) = true <-> a1 < a2 \/ (a1 = a2 /\ (b1 < b2 \/ (b1 = b2 /\ c1 <= c2))).
+Proof.
+  unfold spec_leb.
+  destruct (Z.ltb_spec a1 a2), (Z.ltb_spec a2 a1), (Z.ltb_spec b1 b2), (Z.ltb_spec b2 b1), (Z.leb_spec c1 c2);
+    split; intros; try reflexivity; try discriminate; lia.
+Qed.
 Lemma spec_leb_total x y : spec_leb x y = true \/ spec_leb y x = true.
-Proof.
-  destruct x as [[a1 b1] c1], y as [[a2 b2] c2]. unfold spec_leb.
-  destruct (Z.ltb_spec a1 a2), (Z.ltb_spec a2 a1), (Z.ltb_spec b1 b2), (Z.ltb_spec b2 b1),
-    (Z.leb_spec c1 c2), (Z.leb_spec c2 c1); auto; lia.
-Qed.
+Proof. destruct x as [[a1 b1] c1], y as [[a2 b2] c2]. rewrite !spec_leb_iff. lia. Qed.
 Lemma spec_leb_trans x y z : spec_leb x y = true -> spec_leb y z = true -> spec_leb x z = true.
-Proof.
-  destruct x as [[a1 b1] c1], y as [[a2 b2] c2], z as [[a3 b3] c3]. unfold spec_leb.
-  destruct (Z.ltb_spec a1 a2), (Z.ltb_spec a2 a1), (Z.ltb_spec b1 b2), (Z.ltb_spec b2 b1),
-    (Z.ltb_spec a2 a3), (Z.ltb_spec a3 a2), (Z.ltb_spec b2 b3), (Z.ltb_spec b3 b2),
-    (Z.ltb_spec a1 a3), (Z.ltb_spec a3 a1), (Z.ltb_spec b1 b3), (Z.ltb_spec b3 b1),
-    (Z.leb_spec c1 c2), (Z.leb_spec c2 c3), (Z.leb_spec c1 c3); intros; try reflexivity; try discriminate; lia.
-Qed.
-Lemma weight_leb_total x y : weight_leb x y = true \/ weight_leb y x = true.
-Proof.
-  destruct x as [p1 s1], y as [p2 s2]. unfold weight_leb. simpl.
-  destruct (Z.ltb_spec p1 p2), (Z.ltb_spec p2 p1); auto; try lia. apply spec_leb_total.
-Qed.
-Lemma weight_leb_trans x y z : weight_leb x y = true -> weight_leb y z = true -> weight_leb x z = true.
-Proof.
-  destruct x as [p1 s1], y as [p2 s2], z as [p3 s3]. unfold weight_leb. simpl.
-  destruct (Z.ltb_spec p1 p2), (Z.ltb_spec p2 p1), (Z.ltb_spec p2 p3), (Z.ltb_spec p3 p2),
-    (Z.ltb_spec p1 p3), (Z.ltb_spec p3 p1); intros; try reflexivity; try discriminate; try lia.
-  eapply spec_leb_trans; eassumption.
-Qed.
+Proof. destruct x as [[a1 b1] c1], y as [[a2 b2] c2], z as [[a3 b3] c3]. rewrite !spec_leb_iff. lia. Qed.
 
 (* weight order = (origin/importance, specificity) in the order css-cascade gives *)
 Lemma weight_leb_iff p1 f1 g1 h1 p2 f2 g2 h2 :
   weight_leb (p1, (f1, g1, h1)) (p2, (f2, g2, h2)) = true <->
   p1 < p2 \/ (p1 = p2 /\ (f1 < f2 \/ (f1 = f2 /\ (g1 < g2 \/ (g1 = g2 /\ h1 <= h2))))).
 Proof.
-  unfold weight_leb, spec_leb. simpl.
-  destruct (Z.ltb_spec p1 p2), (Z.ltb_spec p2 p1), (Z.ltb_spec f1 f2), (Z.ltb_spec f2 f1),
-    (Z.ltb_spec g1 g2), (Z.ltb_spec g2 g1), (Z.leb_spec h1 h2); split; intros; try reflexivity; try discriminate; lia.
+  unfold weight_leb. simpl fst. simpl snd.
+  destruct (Z.ltb_spec p1 p2), (Z.ltb_spec p2 p1); rewrite ?spec_leb_iff;
+    split; intros; try reflexivity; try discriminate; lia.
+Qed.
+Lemma weight_leb_total x y : weight_leb x y = true \/ weight_leb y x = true.
+Proof. destruct x as [p1 [[a1 b1] c1]], y as [p2 [[a2 b2] c2]]. rewrite !weight_leb_iff. lia. Qed.
+Lemma weight_leb_trans x y z : weight_leb x y = true -> weight_leb y z = true -> weight_leb x z = true.
+Proof.
+  destruct x as [p1 [[a1 b1] c1]], y as [p2 [[a2 b2] c2]], z as [p3 [[a3 b3] c3]]. rewrite !weight_leb_iff. lia.
 Qed.
 
 Lemma precedence_order :
@@ -400,7 +394,7 @@ Proof.
   destruct (cascade_picks_last_max Z weight weight_leb weight_leb_total weight_leb_trans (e :: l)) as [d [H1 H2]];
     [congruence|].
   fold (cascade weight_leb (e :: l)). rewrite H1.
-  now apply (cascade_idempotent Z weight weight_leb weight_leb_total weight_leb_trans).
+  now apply (cascade_idempotent Z weight weight_leb weight_leb_total).
 Qed.
 
 (* only matching selectors contribute *)
